@@ -232,6 +232,26 @@ def pat_key(p, facts=None):
     return (k,)
 
 
+def pat_names(p):
+    out = []
+    if not isinstance(p, dict):
+        return out
+    if p.get("k") == "PBind":
+        out.append(p["name"])
+        if p.get("sub"):
+            out += pat_names(p["sub"])
+    for key in ("pats", "before", "after"):
+        for s_ in p.get(key) or ():
+            out += pat_names(s_)
+    for f in p.get("fields") or ():
+        out += pat_names(f["pat"])
+    if isinstance(p.get("pat"), dict):
+        out += pat_names(p["pat"])
+    if isinstance(p.get("mid"), dict):
+        out += pat_names(p["mid"])
+    return out
+
+
 class Sym:
     """Normal form builder."""
 
@@ -415,7 +435,7 @@ def guards_of(target, root, sym):
                 elif k == "Match":
                     for a in p["arms"]:
                         if c is a["body"]:
-                            out.append(("arm", sym(p["e"]), pat_key(a["pat"])))
+                            out.append(("arm", sym(p["e"]), pat_key(a["pat"]), tuple(pat_names(a["pat"]))))
                             if a.get("guard"):
                                 for g in conj(sym(a["guard"])):
                                     out.append(("if", g, True))
@@ -841,7 +861,30 @@ def fold(t, assume, discr=None):
             return t
         return (h,) + tuple(f(x) if isinstance(x, tuple) else x for x in t[1:])
 
-    return f(t)
+    r = f(t)
+    # an early `return x` anywhere in the evaluated term makes the whole function return x
+    er = _find_ret(r)
+    return er if er is not None else r
+
+
+def _find_ret(t):
+    if not isinstance(t, tuple) or not t:
+        return None
+    if t[0] == "ret":
+        return t
+    if t[0] in ("closure", "match", "if"):
+        return None   # only unconditional positions are hoisted
+    for x in t[1:]:
+        if isinstance(x, tuple):
+            if x and isinstance(x[0], tuple):   # tuple of terms / pairs
+                for y in x:
+                    r = _find_ret(y) if isinstance(y, tuple) else None
+                    if r is not None:
+                        return r
+            r = _find_ret(x)
+            if r is not None:
+                return r
+    return None
 
 
 def _pat_matches(pk_, sc):
